@@ -125,7 +125,9 @@ Section Grader.
   Variable cfg : config.
 
   (* ---- SumGrader.evaluate_sum with SummationGraderBase.get_limits_and_funcs ---- *)
-  Definition evaluate_sum (summand lower upper var : str) (scope : list str) (i : nat) : outcome V :=
+  (* everything up to the arguments of range(): dummy-variable check, limits, parse of the summand,
+     limit checks, cutoff choice, then perform_summation's plan *)
+  Definition evaluate_sum_plan (summand lower upper var : str) (scope : list str) (i : nat) : outcome (Z * Z * Z) :=
     bind (evaluate_sum_pre (tb (mem var scope))) (fun _ =>
     bind (eval_limit lower scope i) (fun lo =>
     bind (eval_limit upper scope i) (fun hi =>
@@ -134,7 +136,12 @@ Section Grader.
     bind (evaluate_sum_cutoff (tb (uses_fact lower || uses_fact upper || uses_fact summand))
                               (tb (uses_factorial lower || uses_factorial upper || uses_factorial summand))
                               (c_infty_val_fact cfg) (c_infty_val cfg)) (fun cut =>
-    perform_summation vzero vadd (fun n => eval_term summand scope var n i) lo hi (c_even_odd cfg) cut)))))).
+    summation_plan lo hi (c_even_odd cfg) cut)))))).
+
+  (* = ... perform_summation eval_summand lo hi even_odd cut (Proofs/Summation.v: evaluate_sum_unfold) *)
+  Definition evaluate_sum (summand lower upper var : str) (scope : list str) (i : nat) : outcome V :=
+    bind (evaluate_sum_plan summand lower upper var scope i)
+         (sum_range vzero vadd (fun n => eval_term summand scope var n i)).
 
   (* fields: [lower; upper; summand; variable] *)
   Definition f_lower (l : list str) := nth 0 l [].
